@@ -333,7 +333,9 @@ def handleResponse (s : CState) (now : Nat) (resp : Msg) :
           if gs.2.2 = sSending then .placeholder
           else if gs.2.2 = sExpired then .placeholder          -- reported by send_error (repair dec7b5c)
           else .msg (st.lastResponse.getD resp')
-        | none => .msg resp')
+        | none =>
+          -- a segment whose message status is gone was reported already (repair 9f0c...)
+          if o.sarTotal > 0 then .placeholder else .msg resp')
     else ((get s now resp).1, (get s now resp).2.1, [], .msg resp)
 
 /-- `_handle_request` for a parsed DeliverSm (state, hook calls of the sweep, result) -/
